@@ -7,7 +7,9 @@ mirrored function by function with the **sub-results as inputs** (what the date 
 duration parsers returned for the pieces of the text, which regex groups matched): `merge_two_time_points`,
 `merge_date_and_time_periods` (one date + one time period), `parse_simple_cases`, `parse_specific_time_of_day`
 (+ `EnglishDateTimePeriodParserConfiguration.get_matched_time_range` / `get_swift_prefix`), `parse_duration`,
-`parse_relative_unit`, `parse_date_with_period_prefix`.
+`parse_relative_unit`. (`parse_date_with_period_prefix` is dead in English: `prefix_day_regex` ends in `$` and is matched
+against a prefix that keeps its trailing blank, so it never matches; `parse_date_with_time_period_suffix` returns a
+point, not a range. Both are monitored through the pipeline only.)
 
 Model of the code that exists: the Python port has **no day roll** when the end time of a range is earlier than its
 begin time, no "later than" adjustment, and writes the duration with `luis_time_span`, which prints a *negative* hour
@@ -240,19 +242,5 @@ def relativeUnit (ref : DateTime) (u : RelUnit) (past : Bool) : Res :=
       let b ← (if past then addSeconds ref (-u.seconds) else some ref)
       let e ← (if past then some ref else addSeconds ref u.seconds)
       pure (.ok (triple (luisPoint b) (luisPoint e) [80, 84, 49, u.letter]) b e b e)
-
-/-! ### `parse_date_with_period_prefix` ("early / mid / late <date>") -/
-
-inductive DayPart | early | mid | late
-deriving DecidableEq, Repr
-
-/-- `fd` = the date's future value; the TIMEX is the date's. `late` adds twelve hours to both ends (the range is the
-single instant 12:00 — mirrored). -/
-def datePeriodPrefix (fd : DateTime) (dateTimex : Str) (p : DayPart) : Res :=
-  let d := fd.date
-  match p with
-  | .early => .ok dateTimex ⟨d, 0⟩ ⟨d, 43200⟩ ⟨d, 0⟩ ⟨d, 43200⟩
-  | .mid => .ok dateTimex ⟨d, 36000⟩ ⟨d, 50400⟩ ⟨d, 36000⟩ ⟨d, 50400⟩
-  | .late => .ok dateTimex ⟨d, 43200⟩ ⟨d, 43200⟩ ⟨d, 43200⟩ ⟨d, 43200⟩
 
 end RTV.DtPeriod
